@@ -1063,7 +1063,7 @@ def c07(case, lines):
     dk = next((k for k, e in enumerate(tr.evs) if e == "dropctx"), None)
     for op in order:
         sid = sid_of[op]
-        want = []
+        want, wantv = [], []
         awaiting = set()
         for k, p in inp:
             i = rx_info(p)
@@ -1079,13 +1079,18 @@ def c07(case, lines):
                 continue
             if sid in i["subids"]:
                 want.append(M.hx(i["payload"]))
-        got = []
+                wantv.append(expected_view(p))
+        got, gotv = [], []
         for l in lines:
             p = l.split(" ")
             if p[1] == "I" and int(p[2]) == op:
                 got.append(kv(" ".join(p[3:]))["pl"])
+                gotv.append(" ".join(p[3:]))
         if got != want[:len(got)]:
             return "delivery: stream %d yielded %s, its subscription identifier %d was carried by %s" % (op, got[:5], sid, want[:5])
+        for n_, (g_, w_) in enumerate(zip(gotv, wantv)):
+            if w_ is not None and g_ != w_ and not g_.startswith("L") and "pl=L" not in g_ and "pl=L" not in w_:
+                return "unchanged: item %d of stream %d reads '%s', the PUBLISH delivered encodes '%s'" % (n_, op, g_[:200], w_[:200])
         if op not in dropped_at and dk is None:
             exp = []
             aw = set()
@@ -1360,6 +1365,14 @@ def c04(case, lines):
     """never wedged with unread input: when everything delivered in the running phase is a sequence of whole packets
     that the client keeps serving, the PINGRESP at the end completes the ping pending since the start"""
     tr = Trace(case, lines)
+    if "varint5" in (case.get("tags") or []) and not has(tr, "reconnect", "dropctx", "hold"):
+        # a remaining-length field with a fourth continuation byte can never become a packet: the client gives up on it when
+        # it has arrived, it does not go on reading
+        dk = next((k for k, e in enumerate(tr.evs) if e.startswith("deliver ") and M.unhex(e[8:])[1:5] in (b"\xff\xff\xff\xff", b"\x80\x80\x80\x80")), None)
+        res = [(k, r) for k in sorted(tr.by) for r in tr.by[k] if r.startswith(("R ", "C ")) and dk is not None and k >= dk]
+        if dk is not None and (not res or res[0][0] > dk):
+            return "stall: the length field delivered at event %d has four continuation bytes; the client neither reported it nor stopped reading (%s)" % (
+                dk, ("first result at event %d: %s" % res[0]) if res else "no result")
     if tr.faulty or tr.run_result() is not None or has(tr, "reconnect", "dropctx"):
         return None
     conn = connection_streams(tr)[0]
@@ -1467,10 +1480,44 @@ def connect_content(tr):
     return None
 
 
+def auth_content(tr):
+    """the AUTH written by authorize() carries the reason, authentication method / data and user properties the caller gave
+    (the two-byte form stands for reason 0 and nothing else)"""
+    if tr.faulty:
+        return None
+    for k0, e in enumerate(tr.evs):
+        if e.split(" ")[0] != "auth":
+            continue
+        args = [t.split("=", 1) for t in e.split(" ")[1:] if "=" in t]
+        d = dict(args)
+        want_up = [tuple(M.unhex(x) for x in v.split(":")) for k, v in args if k == "up"]
+        w = b"".join(M.unhex(r[2:]) for r in tr.by.get(k0, []) if r.startswith("W "))
+        if not w or w[0] != 0xf0:
+            continue
+        try:
+            n, j = M.read_varint(w, 1)
+            body = w[j:j + n]
+            reason = body[0] if body else 0
+            dp = ({}, [])
+            if len(body) > 1:
+                pl, k = M.read_varint(body, 1)
+                dp = decode_props(body[k:k + pl])
+        except Exception:
+            return "auth: the AUTH written cannot be decoded field by field"
+        if dp is None:
+            return "auth: the property section of the AUTH written cannot be decoded"
+        want = (int(d.get("r", 0)), M.unhex(d["am"]) if "am" in d else None, M.unhex(d["ad"]) if "ad" in d else None, want_up)
+        got = (reason, dp[0].get(21), dp[0].get(22), dp[1])
+        if got != want:
+            return "auth: authorize() was given reason %d, method %s, data %s, user properties %s; the AUTH written (%s) carries reason %d, method %s, data %s, user properties %s" % (
+                want[0], want[1], want[2], want[3], M.hx(w[:16]), got[0], got[1], got[2], got[3])
+    return None
+
+
 @oracle("C01")
 def c01(case, lines):
     tr = Trace(case, lines)
-    r0 = connect_content(tr)
+    r0 = connect_content(tr) or auth_content(tr)
     if r0:
         return r0
     if (case.get("id") or "") in ("quota0-others", "pings-outstanding"):
@@ -1712,6 +1759,10 @@ def c02(case, lines):
                 continue
             res = [(kd, r) for kd, r in tr.done().get(owner[0], []) if kd >= k]
             if not res:
+                polled_after = [kk for kk, e in enumerate(tr.evs) if kk > k and e in ("poll %d" % owner[0], "fpoll %d" % owner[0])]
+                if t in (4, 5, 7) and exp is not None and exp.startswith("err") and polled_after and not tr.done().get(owner[0]):
+                    return "values: the acknowledgement delivered at event %d encodes '%s'; operation %d, polled at event %d, does not report it" % (
+                        k, exp[:120], owner[0], polled_after[0])
                 continue
             if t == 4 or t in (9, 11) or (t == 7) or (t == 5 and exp.startswith("err")):
                 # QoS 2: the PUBREC result is final only when it fails; the PUBCOMP decides otherwise
